@@ -43,7 +43,7 @@ type c02Scn struct {
 	T         int64
 	horizon   int64
 	actions   []c02Action
-	reschedAt int64 // if >0: at this instant, after everything, the name must be schedulable again
+	reschedAt int64    // if >0: at this instant, after everything, the name must be schedulable again
 	extra     []string // further one-off jobs scheduled for T before the actions start
 	bound     [2]int   // bounds (quick, thorough) when the defaults (2, unbounded) are too wide
 	deviation bool     // count every non-default scheduling choice (scenarios with more than four goroutines)
@@ -60,7 +60,7 @@ type c02State struct {
 	reschedOK bool
 	existsEnd bool
 	listEnd   []string
-	runs2     int // runs of a job scheduled by a "sched" action
+	runs2     int            // runs of a job scheduled by a "sched" action
 	runsX     map[string]int // runs of the extra jobs
 }
 
